@@ -21,7 +21,7 @@ META = {
         'djs_reject reports a changed mask (condition evaluated on the values True/False the flag can take); C10.ROWS - fit uses every '
         'interval that holds at least one point. C10.REQUIREN - the loop that counts the good points per breakpoint interval for requiren can reach the last data point; NOT decided: equality with an independent rejection procedure, curve invariance '
         'under permutation (needs numerical determinism of the solver).'),
-    'floors': {'C10.REQUIREN': 1, 'C10.UNSORT': 5, 'C10.CTOR-SORTED': 1, 'C10.WEIGHT-MASK': 2, 'C10.INMASK': 2, 'C10.LIMITS': 7, 'C10.LOOP': 5, 'C10.ROWS': 2, 'C10.MASK-EXITS': 3},
+    'floors': {'C10.REQUIREN': 1, 'C10.UNSORT': 5, 'C10.CTOR-SORTED': 1, 'C10.WEIGHT-MASK': 2, 'C10.INMASK': 2, 'C10.LIMITS': 7, 'C10.LOOP': 5, 'C10.ROWS': 2, 'C10.MASK-EXITS': 1},
 }
 
 
